@@ -41,7 +41,7 @@
 (***************************************************************************)
 EXTENDS Integers, Sequences, FiniteSets, TLC, Json
 
-CONSTANTS NCases,      \* Gen: number of random comparer cases (stream cases: NCases \div 8)
+CONSTANTS NCases,      \* Gen: number of random comparer cases (stream cases: NCases \div 5)
           Scope        \* MC: 1 = quick domain, 2 = thorough domain
 
 VARIABLE c
@@ -318,7 +318,7 @@ MCAnc == IF Scope >= 2 THEN Ancestors ELSE Ancestors \ {Empty("T")}
 MCX(a) == IF Scope >= 2 THEN Mut1(a)
           ELSE { x \in Mut1(a) : x.i = a.i /\ x.s = a.s /\ x.u = a.u /\ x.mw = a.mw /\ x.db = a.db /\ x.mf = a.mf }
 MCInit == c \in UNION { [st : {0}, a : {a}, x : MCX(a), y : {a}, m1 : {<<>>}, m2 : {<<>>}] : a \in MCAnc }
-MCM2 == IF Scope >= 2 THEN {<<>>, <<T1(Cm("float", 0, 1))>>, <<T1(Cm("float", 1, 0)), T1(Cm("time", 1, 0))>>}
+MCM2 == IF Scope >= 2 THEN {<<T1(Cm("float", 0, 1))>>, <<T1(Cm("float", 1, 0)), T1(Cm("time", 1, 0))>>}
         ELSE {<<T1(Cm("float", 0, 1))>>}
 MCNext == /\ c.st = 0
           /\ c' \in [st : {1}, a : {c.a}, x : {c.x},
@@ -431,8 +431,13 @@ SG(f) == CASE f = "fl" -> { Fin(v) : v \in {0, 2, 4, 6, 8, 10, 12, 16} }
            [] OTHER    -> 0..1
 StreamCfgs == {<<T1(Cm("float", 0, 4))>>, <<T1(Cm("float", 0, 2))>>, <<T1(Cm("float", 2, 0))>>, <<T1(Cm("time", 1, 0))>>,
                <<T1(Cm("float", 0, 4)), T1(Cm("time", 2, 0))>>, <<T1(Cm("dur", 2, 0)), T1(Cm("time", 3, 0))>>, <<>>}
-SMut(a, z) == LET f == Pick(<<"fl", "fl", "fl", "db", "rd", "wk", "i">>) IN
-              IF RandomElement(1..5) = 1 THEN a ELSE [a EXCEPT ![f] = RandomElement(SG(f))]
+\* fl moves in small steps (so a run of individually equivalent writes drifts away from what a
+\* subscriber holds), the other fields are replaced
+FlStep(a) == LET v == a.v + Pick(<<-4, -2, -2, 2, 2, 4>>) IN Fin(IF v < 0 THEN 0 ELSE IF v > 16 THEN 16 ELSE v)
+SMut(a, z) == LET f == Pick(<<"fl", "fl", "fl", "fl", "db", "rd", "wk", "i">>) IN
+              IF RandomElement(1..6) = 1 THEN a
+              ELSE IF f = "fl" /\ RandomElement(1..4) # 1 THEN [a EXCEPT !.fl = FlStep(@)]
+              ELSE [a EXCEPT ![f] = RandomElement(SG(f))]
 RECURSIVE Walk(_, _, _)
 Walk(a, n, z) == IF n = 0 THEN <<>> ELSE LET b == SMut(a, z) IN <<b>> \o Walk(b, n - 1, z + 1)
 GenStream(n) ==
@@ -442,13 +447,13 @@ GenStream(n) ==
       vs  == Walk(a, len, n)
       ws  == [j \in 1..len |->
                IF isVal THEN [op |-> "set", id |-> "", v |-> vs[j]]
-               ELSE [op |-> IF RandomElement(1..7) = 1 THEN "del" ELSE "put", id |-> Pick(<<"a", "a", "b">>), v |-> vs[j]]]
+               ELSE [op |-> IF RandomElement(1..7) = 1 THEN "del" ELSE "put", id |-> Pick(<<"a", "a", "a", "b">>), v |-> vs[j]]]
       sub(z) == [uo |-> RandomElement(1..4) = 1, at |-> Pick(<<0, 0, 1, 2>>)]
   IN [k |-> "stream", n |-> n, res |-> IF isVal THEN "val" ELSE "coll", terms |-> RandomElement(StreamCfgs),
       init |-> IF isVal /\ RandomElement(1..3) # 1 THEN [has |-> TRUE, v |-> a] ELSE [has |-> FALSE, v |-> Empty("T")],
       writes |-> ws, subs |-> <<sub(1), sub(2), sub(3)>>, sc |-> RandomElement(0..3), tb |-> RandomElement(0..3)]
 
-GenInit == c \in { GenCmp(n) : n \in 1..NCases } \cup { GenDurP(n) : n \in 1..(NCases \div 50) } \cup ExhaustiveCmp \cup { GenStream(n) : n \in 1..(NCases \div 8) }
+GenInit == c \in { GenCmp(n) : n \in 1..NCases } \cup { GenDurP(n) : n \in 1..(NCases \div 50) } \cup ExhaustiveCmp \cup { GenStream(n) : n \in 1..(NCases \div 5) }
 GenNext == UNCHANGED c
 EmitCase == PrintT("CASE " \o ToJson(c))
 =============================================================================
